@@ -66,7 +66,7 @@ class WriteROOTTree():
             if len(root_file) >= 2:
                 create_option = root_file[1]
                 file_options = ["new", "create", "recreate", "update"]
-                if lower(create_option) not in file_options:
+                if create_option.lower() not in file_options:
                     raise lena.core.LenaValueError(
                         "creation option must be one of {}, {} provided"\
                         .format(file_options, create_option)
